@@ -1,4 +1,5 @@
 import DmrVerif.Lemmas.TrackerVoice
+import DmrVerif.Lemmas.TrackerWrap
 import DmrVerif.Gen.Tracker
 
 /-!
@@ -221,6 +222,105 @@ theorem observer_isolation (r1 r2 : List Bool) (h : History) (hwf : WF h) :
     rintro o ⟨x, _, rfl⟩; simp
   · simp [obsOf, List.map_map, Function.comp_def]
   · simp [obsOf, List.map_map, Function.comp_def]
+
+/-! ## exact totals at wrap points (round 4)
+
+`rx_sequence` and `ended_payload` hold for histories of any length, so the two facts below are consequences
+of what the model does; they are stated on their own because two realistic changes are invisible to every
+history in which no transmission ends on its 256th (512th, …) burst since the last restart and none stays
+open for more than 256 blocks. -/
+
+/-- the restart of the numbering does not depend on the number the ending burst itself got: in every reachable
+state a burst is numbered (counter + 1) mod 256, and afterwards the counter is 0 if the burst delivered an end —
+also when that burst was numbered 0, i.e. was the 256th, 512th, … since the last restart — and the number of
+the burst otherwise; the pending-restart flag is clear after every burst -/
+theorem restart_at_any_count {t : Terminal} (ht : Reachable t) (inp : Bool × AbsBurst) (hwf : inp.2.wf = true) :
+    ∃ t' out, t.step inp = .ok (t', out)
+      ∧ out.seq = ((t.slot inp.1).rxSeq + 1) % 256
+      ∧ (t'.slot inp.1).reset = false
+      ∧ (t'.slot inp.1).rxSeq = (if out.deliveredEnd then 0 else out.seq) := by
+  obtain ⟨g1, g2, hi⟩ := reachable_inv ht
+  obtain ⟨t', out, hs, _, h1, h2, h3⟩ := Terminal.step_restart hi inp hwf
+  exact ⟨t', out, hs, h1, h2, h3⟩
+
+/-- … so the burst that follows an end on the same slot is numbered 1, whatever the ending burst was numbered
+and whatever happens on the other slot in between -/
+theorem numbered_one_after_end {t : Terminal} (ht : Reachable t) (inp : Bool × AbsBurst) (hwf : inp.2.wf = true)
+    (other : History) (hother : ∀ x ∈ other, x.1 ≠ inp.1) (hwfo : WF other) (b : AbsBurst) (hwfb : b.wf = true) :
+    ∃ t1 out t2 recs t3 out', t.step inp = .ok (t1, out) ∧ run t1 other = .ok (t2, recs)
+      ∧ t2.step (inp.1, b) = .ok (t3, out')
+      ∧ (out.deliveredEnd = true → out'.seq = 1) := by
+  obtain ⟨g1, g2, hi⟩ := reachable_inv ht
+  obtain ⟨t1, out, hs, hi1, _, _, h3⟩ := Terminal.step_restart hi inp hwf
+  -- the other slot's bursts leave this slot alone
+  have key : ∀ (h : History) (t : Terminal) (g1 g2 : SG), TInv t g1 g2 → (∀ x ∈ h, x.1 ≠ inp.1) → WF h →
+      ∃ t' recs g1' g2', run t h = .ok (t', recs) ∧ TInv t' g1' g2' ∧ t'.slot inp.1 = t.slot inp.1 := by
+    intro h
+    induction h with
+    | nil => intro t g1 g2 hi _ _; exact ⟨t, [], g1, g2, rfl, hi, rfl⟩
+    | cons x rest ih =>
+      intro t g1 g2 hi hne hwf
+      obtain ⟨t', o, hs, hi', _, _, _, _, _, hoth⟩ := Terminal.step_facts hi x (hwf x (by simp))
+      obtain ⟨t'', recs, g1', g2', hr, hi'', hsl⟩ :=
+        ih t' _ _ hi' (fun y hy => hne y (by simp [hy])) (fun y hy => hwf y (by simp [hy]))
+      refine ⟨t'', { two := x.1, burst := x.2, out := o } :: recs, g1', g2', by simp [run, hs, hr], hi'', ?_⟩
+      rw [hsl]
+      exact hoth inp.1 (fun h => hne x (by simp) h.symm)
+  obtain ⟨t2, recs, g1', g2', hr, hi2, hsl⟩ := key other t1 _ _ hi1 hother hwfo
+  obtain ⟨t3, out', hs', _, h1', _, _⟩ := Terminal.step_restart hi2 (inp.1, b) hwfb
+  refine ⟨t1, out, t2, recs, t3, out', hs, hr, hs', ?_⟩
+  intro hde
+  rw [h1']
+  simp only [hsl, h3, hde, ↓reduceIte]
+
+/-! ### kernel-checked instances at the wrap points -/
+
+def vhEx : AbsBurst := ⟨.voiceHeader [7], some 1⟩
+def veEx : AbsBurst := ⟨.voice false, some 1⟩
+def tmEx : AbsBurst := ⟨.terminator [8], some 1⟩
+
+/-- a voice call of exactly `n + 2` bursts on slot 1 (header, n vocoder bursts, terminator), then four more bursts -/
+def callEx (n : Nat) : History :=
+  ((vhEx :: List.replicate n veEx) ++ [tmEx, vhEx, veEx, veEx, tmEx]).map fun b => (false, b)
+
+/-- the receive sequence numbers of a run, from the given position on -/
+def seqsFrom (k : Nat) (h : History) : Option (List Nat) :=
+  match run (Terminal.init [false]) h with
+  | .ok (_, recs) => some ((recs.map (·.out.seq)).drop k)
+  | .error _ => none
+
+/-- a call of exactly 256 bursts: its terminator is numbered 0 and delivers the end; the next burst is numbered 1,
+the following ones 2, 3, … (with the restart skipped "because the counter already is 0" they would be 1, 1, 2) -/
+theorem wrap_256 : seqsFrom 253 (callEx 254) = some [254, 255, 0, 1, 2, 3, 4] := by decide +kernel
+
+/-- one burst fewer / more: the terminator is numbered 255 / 1 -/
+theorem wrap_255_257 : seqsFrom 252 (callEx 253) = some [253, 254, 255, 1, 2, 3, 4]
+    ∧ seqsFrom 254 (callEx 255) = some [255, 0, 1, 1, 2, 3, 4] := by decide +kernel
+
+/-- a call of exactly 512 bursts -/
+theorem wrap_512 : seqsFrom 509 (callEx 510) = some [254, 255, 0, 1, 2, 3, 4] := by decide +kernel
+
+def udtEx : DataHdr := { btf := none, a := false, sap := 4, raw := [9] }
+
+/-- a data transmission that nothing ends by itself (UDT header: no count-down) with `n` CSBKs behind the header,
+ended by a voice LC header -/
+def openEx (n : Nat) : History :=
+  (((⟨.dataHeader udtEx, some 1⟩ : AbsBurst) :: List.replicate n ⟨.csbk false 0 [5], some 1⟩) ++ [vhEx]).map
+    fun b => (false, b)
+
+/-- number of blocks every `data ended` of a run hands over -/
+def endedCounts (h : History) : Option (List Nat) :=
+  match run (Terminal.init [false]) h with
+  | .ok (_, recs) => some ((allEvents recs).filterMap fun
+      | .dataEnded _ bl => some bl.length
+      | _ => none)
+  | .error _ => none
+
+/-- 255, 256, 257, 300 and 520 blocks behind one `started`: all of them are handed over (a list capped at 256
+entries would hand over 256 for the last three) -/
+theorem open_transmission_keeps_every_block :
+    [254, 255, 256, 299, 519].map (fun n => endedCounts (openEx n))
+      = [some [255], some [256], some [257], some [300], some [520]] := by decide +kernel
 
 /-! ## non-vacuity and the historical defect -/
 
